@@ -104,7 +104,8 @@ Section FromDict2.
     assert (Lm : length m = length s) by (rewrite <- Mk; rewrite map_length; reflexivity).
     (* trans *)
     rewrite <- Lm. rewrite (fill_trans_scatter m 0 _ 0 0). rewrite Ms. rewrite Lm.
-    replace (len s) with (len v) at 1 by (unfold len; rewrite Lsv; reflexivity).
+    assert (Elen : len s = len v) by (unfold len; rewrite Lsv; reflexivity).
+    replace (zeros (len s)) with (zeros (len v)) by (rewrite Elen; reflexivity).
     rewrite (scatter_embed vlt veqb laws v s (seqN 0 (length s)) 0 0 0 NDv NDs)
       by (try (intros x Hx; apply Hin; assumption); apply seqN_length).
     cbn [bind].
